@@ -4,6 +4,13 @@ use std::collections::{BTreeMap, BTreeSet};
 use std::path::{Path, PathBuf};
 use std::time::Instant;
 
+macro_rules! out {
+    ($($a:tt)*) => {{
+        use std::io::Write as _;
+        let _ = writeln!(std::io::stdout(), $($a)*);
+    }};
+}
+
 #[derive(Clone, Debug)]
 pub struct Violation {
     pub rule: String,
@@ -159,7 +166,7 @@ impl Ctx {
         for v in &self.violations {
             let full = format!("{}:{}", v.rule, v.key);
             if let Some(what) = known.get(&full) {
-                println!("KNOWN-FINDING: property={} {} [{}] {}:{}", self.property, what, full, v.file, v.line);
+                out!("KNOWN-FINDING: property={} {} [{}] {}:{}", self.property, what, full, v.file, v.line);
                 known_hit.push(json!({"key": full, "what": what, "file": v.file, "line": v.line}));
             } else {
                 k += 1;
@@ -169,8 +176,8 @@ impl Ctx {
                     "file": v.file, "line": v.line, "message": v.msg,
                 });
                 let _ = std::fs::write(&path, serde_json::to_string_pretty(&rec).unwrap());
-                println!("{}:{}: [{}] {} (key {})", v.file, v.line, v.rule, v.msg, full);
-                println!("VIOLATION property={} replay={}", self.property, path.display());
+                out!("{}:{}: [{}] {} (key {})", v.file, v.line, v.rule, v.msg, full);
+                out!("VIOLATION property={} replay={}", self.property, path.display());
                 new_violations += 1;
             }
         }
@@ -180,7 +187,7 @@ impl Ctx {
             .cloned()
             .collect();
         for s in &stale {
-            println!("note: known finding no longer observed (stale entry): {}", s);
+            out!("note: known finding no longer observed (stale entry): {}", s);
         }
 
         let evaluations: usize = self.obligations.values().map(|v| v.0).sum();
@@ -227,7 +234,7 @@ impl Ctx {
             evdir.join(format!("{}.json", self.property)),
             serde_json::to_string_pretty(&ev).unwrap() + "\n",
         );
-        println!(
+        out!(
             "{}: {} rule instances examined ({} non-trivial, {} rules), {} known finding(s), {} new violation(s)",
             self.property,
             evaluations,
